@@ -34,6 +34,7 @@ type Prog struct {
 	cg        *CallGraph
 	ssa       *ssaView
 	RenameNotes []string
+	closures    map[*Func]map[*types.Var]*ast.FuncLit // local closures per function (inline.go)
 }
 
 // Func is one declared function of the repository.
